@@ -64,6 +64,10 @@ def snapshot(trees):
 _REC = []
 
 
+# module-level functions of the recorded tree (every other one is new: an extracted helper)
+RECORDED_FUNCTIONS = {'utilisation_policy'}
+
+
 def recorded_methods():
     """{class: set of method names} of the recorded tree ({} when there is no table)"""
     if not _REC:
@@ -180,6 +184,99 @@ def apply(trees, ren):
     if ren:
         for t in trees:
             _Back(ren).visit(t)
+
+
+def lift_functions(trees):
+    """A recorded method that left its class for a module-level function of the same body
+    (`self._generate_ingest_tasks(d, o)` -> `_build_ingest_tasks(o, d)`) is put back as a method
+    under its recorded name, and the calls made from methods of that class are turned back into
+    method calls.  Accepted only for a unique, clearly matching new function (same fingerprint
+    test as renames) that is called from a recorded caller of the method; its parameters keep
+    the function's own order (calls are rewritten consistently).
+    Returns {function name: 'Class.method'}."""
+    if not TABLE.exists():
+        return {}
+    old = json.loads(TABLE.read_text())
+    lifted = {}
+    classes = {}
+    funcs = {}
+    for t in trees:
+        for n in t.body:
+            if isinstance(n, ast.ClassDef):
+                classes.setdefault(n.name, (t, n))
+            elif isinstance(n, ast.FunctionDef) and n.name not in RECORDED_FUNCTIONS:
+                funcs.setdefault(n.name, []).append((t, n))
+    funcs = {k: v[0] for k, v in funcs.items() if len(v) == 1}
+    for cn, oms in sorted(old.items()):
+        if cn not in classes:
+            continue
+        ctree, cnode = classes[cn]
+        have = {b.name for b in cnode.body if isinstance(b, (ast.FunctionDef, ast.AsyncFunctionDef))}
+        # (a method defined in a base class is not missing)
+        for m in sorted(oms):
+            if m in have or (m.startswith('__') and m.endswith('__')):
+                continue
+            if any(m in {b.name for b in c[1].body if isinstance(b, ast.FunctionDef)} for c in classes.values()):
+                continue          # still defined by some class (moved within the hierarchy): not this case
+            want_n, want_callers, want_fp = (oms[m] + [[]])[:3]
+            scored = []
+            for fname, (ft, fn) in funcs.items():
+                if fname in lifted or fn.args.vararg or fn.args.kwarg:
+                    continue
+                npar = len(fn.args.args) + len(fn.args.kwonlyargs)
+                if npar not in (want_n - 1, want_n):
+                    continue
+                # called by bare name from a method of the class that is (or was extracted from) a recorded caller
+                callers = set()
+                for b in cnode.body:
+                    if isinstance(b, (ast.FunctionDef, ast.AsyncFunctionDef)) and any(
+                            isinstance(x, ast.Call) and isinstance(x.func, ast.Name) and x.func.id == fname for x in ast.walk(b)):
+                        callers.add('%s.%s' % (cn, b.name))
+                if not callers or (want_callers and not (callers & set(want_callers))):
+                    continue
+                a, b_ = set(want_fp), set(_fingerprint(fn))
+                sim = len(a & b_) / float(len(a | b_) or 1)
+                scored.append((sim, fname, npar))
+            scored.sort(reverse=True)
+            if not scored or scored[0][0] < 0.6 or (len(scored) > 1 and scored[1][0] > scored[0][0] - 0.05):
+                continue
+            sim, fname, npar = scored[0]
+            ft, fn = funcs[fname]
+            import copy as _copy
+            meth = _copy.deepcopy(fn)
+            meth.name = m
+            explicit_self = npar == want_n          # the object is handed over as the first argument
+            if not explicit_self:
+                used = {x.id for x in ast.walk(fn) if isinstance(x, ast.Name)} | {a_.arg for a_ in fn.args.args}
+                sname = 'self' if 'self' not in used else 'self__lifted'
+                meth.args.args.insert(0, ast.arg(arg=sname, annotation=None))
+            ok = True
+            sites = []
+            for b in cnode.body:
+                if not isinstance(b, (ast.FunctionDef, ast.AsyncFunctionDef)):
+                    continue
+                for x in ast.walk(b):
+                    if isinstance(x, ast.Call) and isinstance(x.func, ast.Name) and x.func.id == fname:
+                        if explicit_self and not (x.args and isinstance(x.args[0], ast.Name) and x.args[0].id == 'self'):
+                            ok = False
+                        if not b.args.args or b.args.args[0].arg != 'self':
+                            ok = False
+                        sites.append(x)
+            # calls from elsewhere keep using the function (which stays where it is)
+            if not ok or not sites:
+                continue
+            for x in sites:
+                if explicit_self:
+                    x.args = x.args[1:]
+                x.func = ast.copy_location(ast.Attribute(value=ast.copy_location(ast.Name(id='self', ctx=ast.Load()), x.func),
+                                                         attr=m, ctx=ast.Load()), x.func)
+            cnode.body.append(meth)
+            ast.fix_missing_locations(cnode)
+            # nobody else calls the function: it IS the method now
+            if not any(isinstance(x, ast.Name) and x.id == fname for t_ in trees for x in ast.walk(t_)):
+                ft.body.remove(fn)
+            lifted[fname] = '%s.%s' % (cn, m)
+    return lifted
 
 
 if __name__ == '__main__':
